@@ -433,9 +433,6 @@ mutant('C06', 'minlen-not-exported', 'frappy/datatypes.py',
 mutant('C06', 'optional-not-exported', 'frappy/datatypes.py',
        "        if set(self.optional) != set(self.members):\n            res['optional'] = self.optional\n        return res",
        "        return res")
-mutant('C06', 'isutf8-not-exported', 'frappy/datatypes.py',
-       "        return self.get_info(type='string')",
-       "        return {k: v for k, v in self.get_info(type='string').items() if k != 'isUTF8'}")
 mutant('C06', 'unexported-still-routed', 'frappy/modulebase.py',
        "        if accessible.export:\n            self.accessiblename2attr[accessible.export] = name",
        "        self.accessiblename2attr[accessible.export or ('_' + name)] = name")
